@@ -465,8 +465,11 @@ SU_vector SU_vector::UDaggerTransform(gsl_matrix_complex* em) const{
 std::pair<std::unique_ptr<gsl_vector,void (*)(gsl_vector*)>,
 std::unique_ptr<gsl_matrix_complex,void (*)(gsl_matrix_complex*)>>
 SU_vector::GetEigenSystem(bool order) const{
-  gsl_vector * eigenvalues = gsl_vector_alloc(dim);
-  gsl_matrix_complex * eigenvectors = gsl_matrix_complex_alloc(dim,dim);
+  //the results are owned from the start so that they are released if anything below throws
+  std::unique_ptr<gsl_vector,void (*)(gsl_vector*)> eigenvalues_owner(gsl_vector_alloc(dim),gsl_vector_free);
+  std::unique_ptr<gsl_matrix_complex,void (*)(gsl_matrix_complex*)> eigenvectors_owner(gsl_matrix_complex_alloc(dim,dim),gsl_matrix_complex_free);
+  gsl_vector * eigenvalues = eigenvalues_owner.get();
+  gsl_matrix_complex * eigenvectors = eigenvectors_owner.get();
 #define SQ(x) ((x)*(x))
   switch (dim) {
     case 3:
@@ -484,9 +487,7 @@ SU_vector::GetEigenSystem(bool order) const{
   // sorting eigenvalues
   if (order)
     gsl_eigen_hermv_sort(eigenvalues,eigenvectors,GSL_EIGEN_SORT_VAL_ASC);
-  return std::make_pair(
-    std::unique_ptr<gsl_vector,void (*)(gsl_vector*)>(eigenvalues,gsl_vector_free),
-    std::unique_ptr<gsl_matrix_complex,void (*)(gsl_matrix_complex*)>(eigenvectors,gsl_matrix_complex_free));
+  return std::make_pair(std::move(eigenvalues_owner),std::move(eigenvectors_owner));
 }
 
 /*
